@@ -128,6 +128,9 @@ pub fn rule(r: &mut Rng, o: &RuleOpts) -> String {
 
 /// A request derived from one of the rules: instantiate its pattern, then (sometimes) perturb.
 pub fn url_from(r: &mut Rng, rules: &[String]) -> (String, String, String) {
+    if rules.is_empty() {
+        return ("https://cdn.test/x".to_string(), "https://shop.test/".to_string(), "script".to_string());
+    }
     let base = &rules[r.below(rules.len())];
     let mut body = base.trim_start_matches("@@").to_string();
     if let Some(i) = body.rfind('$') {
